@@ -51,6 +51,7 @@ Definition convert_bool (b : bool) (bitwidth : option Z) (signed : bool) : optio
 Definition convert_vstr (neg : bool) (bw num : Z) (bitwidth : option Z) (signed : bool)
   : option sv :=
   if signed then None
+  else if bw <? 1 then None       (* bitwidth of a verilog-style constant must be at least 1 *)
   else
     let ok1 := negb (neg && negb (num =? 0) && negb (Z.shiftr num (bw - 1) =? 0)) in
     let num' := if neg && negb (num =? 0) then Z.shiftl 1 bw - num else num in
